@@ -62,6 +62,19 @@ func (r *Run) brackets() []*bracket {
 				b.cleanup = d
 				b.X = p.resolve(cs.Recv())
 			}
+			// closure form: defer func() { X.cleanup() }()
+			if mc, ok := d.Common().Value.(*ssa.MakeClosure); ok && b.cleanup == nil {
+				cf := mc.Fn.(*ssa.Function)
+				inner := p.callsTo(cf, "(*T).cleanup")
+				if len(inner) == 1 && !inner[0].isDefer() && len(p.calls(cf)) == 1 && len(cf.Blocks) == 1 {
+					if x := p.resolve(inner[0].Recv()); x != nil {
+						if _, isFV := x.(*ssa.FreeVar); !isFV {
+							b.cleanup = d
+							b.X = x
+						}
+					}
+				}
+			}
 		}
 		if b == nil || b.cleanup == nil {
 			continue
@@ -184,6 +197,11 @@ func (r *Run) flagConsultAfterCleanup(b *bracket) (bool, string) {
 					if isX(p.resolve(a)) && i < len(sc.Params) {
 						pi := sc.Params[i]
 						if ok2, how2 := p.consultsFailed(sc, func(v ssa.Value) bool { return v == ssa.Value(pi) }); ok2 {
+							// the helper must be called on every path of the deferred function (not only e.g. when the attempt was accepted)
+							if byp := escapesFromEntry(f, func(in ssa.Instruction) bool { return in == cs.Instr.(ssa.Instruction) }, false); byp != nil {
+								why = "the deferred " + p.fnName(f) + " consults the flag (via " + p.fnName(sc) + ") only on some of its paths (it can return at " + p.pos(byp.Pos()) + " without doing so)"
+								continue
+							}
 							return true, "deferred " + p.fnName(f) + " → " + p.fnName(sc) + ": " + how2
 						}
 					}
